@@ -510,7 +510,7 @@ func c17Gen(r *mon.Rand, withK4 bool) *c17Case {
 func init() {
 	register(&mon.CheckSpec{
 		ID: "C17", Level: "exploration",
-		Rule: "cases = seeded histories (1-14 ops; one in twelve has 20-70 ops with dozens of NoWait requests outstanding at once) over a simulated kernel that reuses one receive buffer and may refuse any request: NoWait setters (all seven, incl. SetPID, SetImmutable and SetFailure), WaitForPendingACKs (repeated, with nothing outstanding, after an error among the ACKs), WaitForReply setters (some lose their ACK to a receive error: nothing may stay pending), GetRules / GetStatus followed by more traffic, then Close from 1-8 goroutines at once followed by 0-4 further Close calls; a reference list of outstanding NoWait requests decides how many ACK datagrams each WaitForPendingACKs call must consume, what it returns and that it never waits on an empty socket; every rule slice returned by GetRules is compared with its snapshot after every later operation; Close is checked through the simulated socket's close counter and the requests it sends; with ACKs still outstanding at Close, a WaitForPendingACKs made afterwards must read or fail, not report success unseen. A tenth of the histories issue a WaitForReply command while NoWait ACKs are outstanding (known finding K4). Runs under the race detector (concurrent Close). distinct_nontrivial = distinct histories containing a repeated WaitForPendingACKs, an error among pending ACKs, held rule data or concurrent Close.",
+		Rule: "cases = seeded histories (1-14 ops; one in twelve has 20-70 ops with dozens of NoWait requests outstanding at once) over a simulated kernel that reuses one receive buffer and may refuse any request: NoWait setters (all seven, incl. SetPID, SetImmutable and SetFailure), WaitForPendingACKs (repeated, with nothing outstanding, after an error among the ACKs), WaitForReply setters (some lose their ACK to a receive error: nothing may stay pending), GetRules / GetStatus followed by more traffic, then Close from 1-8 goroutines at once followed by 0-4 further Close calls; a reference list of outstanding NoWait requests decides how many ACK datagrams each WaitForPendingACKs call must consume, what it returns and that it never waits on an empty socket; every rule slice returned by GetRules is compared with its snapshot after every later operation; Close is checked through the simulated socket's close counter and the requests it sends; with ACKs still outstanding at Close, a WaitForPendingACKs made afterwards must read or fail, not report success unseen. A tenth of the histories issue a WaitForReply command while NoWait ACKs are outstanding (known finding K4). Runs under the race detector (concurrent Close). In a fifth of the histories the socket's own Close fails (EINTR, EIO, EBADF, EAGAIN, ENOSPC): still exactly one Close of the socket, and only the call that closed it may report that error. distinct_nontrivial = distinct histories containing a repeated WaitForPendingACKs, an error among pending ACKs, held rule data or concurrent Close.",
 		Assumptions: []string{
 			"the simulated kernel acknowledges requests in the order they were sent, as the real kernel does",
 			"waiting on an empty socket is observed as a Receive that finds nothing queued (the library would sleep 10 x 50 ms there)",
